@@ -490,7 +490,7 @@ def table_classes(seq, names):
     return find
 
 
-def c18_failures(rec, obs, names):
+def c18_failures(rec, obs, names, start_sig=None):
     out = []
     if not obs.get('ref', {}).get('ok') or not obs.get('bat', {}).get('ok'):
         return out
@@ -514,19 +514,30 @@ def c18_failures(rec, obs, names):
         # every maximal run of consecutive mergeable changes on one model (as the sequence is
         # written): a single rebuild of its table; a change that is not mergeable (type change,
         # column rename through ChangeField) may cost one more
-        def mergeable(mu):
-            return mu['k'] in ('Add', 'Del', 'Meta') or (
-                mu['k'] == 'Chg' and mu['ftype'] == NONE and 'db_column' not in as_dict(mu['attrs']))
+        befores = abstract_sim(seq, start_sig) if start_sig is not None else [None] * len(seq)
+
+        def mergeable(mu, before=None):
+            if mu['k'] in ('Add', 'Del', 'Meta'):
+                return True
+            if mu['k'] != 'Chg' or 'db_column' in as_dict(mu['attrs']):
+                return False
+            if mu['ftype'] == NONE:
+                return True
+            # a ChangeField that restates the type the field already has is an attribute change
+            try:
+                return before[mu['m']]['fields'][mu['f']]['ftype'] == mu['ftype']
+            except (KeyError, TypeError):
+                return False
         bound = {}
         prev_model = None
         tables = dict((mn, names.table('t_' + mn)) for mn in ('A', 'B', 'C'))
-        for mu in seq:
+        for mu, before_ in zip(seq, befores):
             if mu['k'] == 'RenM':
                 tables[mu['nm']] = names.table(mu['dbtable']) if str(mu['dbtable']).startswith('t_') else mu['dbtable']
                 prev_model = None
                 continue
             t = tables.get(mu['m'])
-            if mergeable(mu):
+            if mergeable(mu, before_):
                 if mu['m'] != prev_model and t:
                     bound[find(t)] = bound.get(find(t), 0) + 1
                 prev_model = mu['m']
